@@ -23,7 +23,7 @@ MECHANISMS = ["jaxley.connect:fully_connect", "jaxley.connect:sparse_connect", "
               "jaxley.modules.network:Network._append_multiple_synapses"]
 MECHANISMS_REQUIRED = MECHANISMS
 REQUIRED = {"quick": {"pairs_exact": 300, "sites": 600, "no_raise": 300},
-            "thorough": {"pairs_exact": 1500, "sites": 3000, "no_raise": 1500}}
+            "thorough": {"pairs_exact": 6827, "sites": 19066, "no_raise": 6355}}
 
 
 def cases(seed, tier):
